@@ -198,10 +198,16 @@ var localCalls = map[string]func(ctx context.Context, sr *scenRun, arg string){
 			sr.setConn("out", c)
 		}
 	},
+	// the fixture accepts every incoming stream in the background (an application that never
+	// accepts makes the ibb handler wait for it: an application rendezvous, not C09's business);
+	// this call just waits for the n-th accepted stream
 	"ibbaccept": func(ctx context.Context, sr *scenRun, arg string) {
-		c, err := sr.p.l.Accept()
-		if err == nil {
-			sr.setConn("in"+arg, c)
+		for sr.conn("in"+arg) == nil {
+			select {
+			case <-ctx.Done():
+				return
+			case <-time.After(200 * time.Microsecond):
+			}
 		}
 	},
 	"ibbread": func(ctx context.Context, sr *scenRun, arg string) {
@@ -231,6 +237,11 @@ var localCalls = map[string]func(ctx context.Context, sr *scenRun, arg string){
 		for it.Next() {
 			drain(it.Current())
 			if arg == "1" {
+				break
+			}
+			if arg == "slow" {
+				// a consumer that closes the iterator while the next result is already waiting
+				time.Sleep(150 * time.Millisecond)
 				break
 			}
 		}
@@ -300,6 +311,19 @@ func runScenario(steps []string) outcome {
 	}
 	p.l = p.ih.Listen(fx.rs.S)
 	sr := &scenRun{fx: fx, p: p, calls: map[string]*call{}, conns: map[string]net.Conn{}, answered: map[string]bool{}}
+	go func() {
+		for n := 1; ; n++ {
+			c, err := p.l.Accept()
+			if err != nil {
+				return
+			}
+			if n == 1 {
+				sr.setConn("in", c)
+			} else {
+				sr.setConn(fmt.Sprintf("in%d", n), c)
+			}
+		}
+	}()
 	serveEnded := false
 	var serveOut outcome
 	stopAuto := make(chan struct{})
@@ -667,6 +691,7 @@ func scenarioList() []scenario {
 		sc("history-unknown-query-id", feed(mamResult("nope")), feed(mamResult("")), feed(mamResult("nope"))),
 		sc("history-results-known-and-unknown", "call:hist", await("hq1"), feed(mamResult("hq1")), feed(mamResult("nope")), feed(mamResult("hq1")), replyto("hq1", "result", finPayload), "wait:hist", feed(mamResult("hq1"))),
 		sc("history-abandoned", "call:hist.1", await("hq1"), feed(mamResult("hq1")), "wait:hist.1", feed(mamResult("hq1")), "probe", replyto("hq1", "result", finPayload), feed(mamResult("hq1"))),
+		sc("history-close-while-result-in-flight", "call:hist.slow", await("hq1"), feed(mamResult("hq1")), feed(mamResult("hq1")), "probe", "wait:hist.slow", feed(mamResult("hq1"))),
 		sc("history-cancelled", "call:hist", await("hq1"), "cancel:hist", feed(mamResult("hq1")), "probe", "wait:hist", feed(mamResult("hq1")), replyto("hq1", "result", finPayload)),
 		sc("history-fin-answered-twice", "call:hist", await("hq1"), replyto("hq1", "result", finPayload), "wait:hist", feed(mamResult("hq1"))),
 		sc("history-error", "call:hist", await("hq1"), feed(mamResult("hq1")), replyto("hq1", "error", errPayload), "wait:hist"),
